@@ -40,6 +40,10 @@ pub struct External {
     pub hid: u64,
     pub count: u64,
     pub path: u8,
+    /// order of the fields in an externally written text (0: as the library writes them;
+    /// otherwise rotated by perm % 5, reversed if perm >= 8): the format is `name=value` pairs
+    #[serde(default)]
+    pub perm: u8,
 }
 
 pub const PATHS: [&str; 10] = [
@@ -56,8 +60,8 @@ pub const PATHS: [&str; 10] = [
 ];
 
 fn external() -> BoxedStrategy<External> {
-    (book_spec(6), gen::boundary_u64(), gen::boundary_u64(), prop_oneof![gen::boundary_u64(), 0u64..10], 0u8..10)
-        .prop_map(|(book, vis, hid, count, path)| External { book, vis, hid, count, path })
+    (book_spec(6), gen::boundary_u64(), gen::boundary_u64(), prop_oneof![gen::boundary_u64(), 0u64..10], 0u8..10, prop_oneof![1 => Just(0u8), 1 => 1u8..16])
+        .prop_map(|(book, vis, hid, count, path, perm)| External { book, vis, hid, count, path, perm })
         .boxed()
 }
 
@@ -106,14 +110,21 @@ pub fn eval_external(e: &External, st: &mut Stats) -> Result<(), String> {
                 serde_json::from_str::<PriceLevel>(&j).map_err(|x| x.to_string())
             }
             6 => {
-                let t = format!(
-                    "PriceLevel:price={};visible_quantity={};hidden_quantity={};order_count={};orders=[{}]",
-                    e.book.price,
-                    e.vis,
-                    e.hid,
-                    e.count,
-                    orders.iter().map(|o| o.to_string()).collect::<Vec<_>>().join(",")
-                );
+                let mut fields = vec![
+                    format!("price={}", e.book.price),
+                    format!("visible_quantity={}", e.vis),
+                    format!("hidden_quantity={}", e.hid),
+                    format!("order_count={}", e.count),
+                    format!("orders=[{}]", orders.iter().map(|o| o.to_string()).collect::<Vec<_>>().join(",")),
+                ];
+                fields.rotate_left(e.perm as usize % 5);
+                if e.perm >= 8 {
+                    fields.reverse();
+                }
+                if e.perm != 0 {
+                    st.count("external/text_with_fields_in_another_order");
+                }
+                let t = format!("PriceLevel:{}", fields.join(";"));
                 PriceLevel::from_str(&t).map_err(|x| x.to_string())
             }
             7 => {
